@@ -33,26 +33,28 @@ func (v *Verdict) AddJudged(prefix string, j Judged) {
 
 // PropDef describes a pipeline property check.
 type PropDef struct {
-	PID        string
-	PLevel     string
-	RuleText   string
-	Assume     []string
-	Quick      int
-	Thorough   int
-	Timeout    time.Duration
-	Anchors    []string
-	HangIsViol bool
-	Gen        func(seed int64, tier string, idx int) *Scenario
-	Hooks      func(sc *Scenario) *Hooks
-	Judge      func(out *Outcome, ix *Index) Verdict
+	PID         string
+	PLevel      string
+	RuleText    string
+	Assume      []string
+	Quick       int
+	Thorough    int
+	Timeout     time.Duration
+	Anchors     []string
+	HangIsViol  bool
+	DeathIsViol bool
+	Gen         func(seed int64, tier string, idx int) *Scenario
+	Hooks       func(sc *Scenario) *Hooks
+	Judge       func(out *Outcome, ix *Index) Verdict
 }
 
-func (p *PropDef) ID() string            { return p.PID }
-func (p *PropDef) Level() string         { return p.PLevel }
-func (p *PropDef) Rule() string          { return p.RuleText }
-func (p *PropDef) Assumptions() []string { return p.Assume }
-func (p *PropDef) AnchorFiles() []string { return p.Anchors }
-func (p *PropDef) HangIsViolation() bool { return p.HangIsViol }
+func (p *PropDef) ID() string             { return p.PID }
+func (p *PropDef) Level() string          { return p.PLevel }
+func (p *PropDef) Rule() string           { return p.RuleText }
+func (p *PropDef) Assumptions() []string  { return p.Assume }
+func (p *PropDef) AnchorFiles() []string  { return p.Anchors }
+func (p *PropDef) HangIsViolation() bool  { return p.HangIsViol }
+func (p *PropDef) DeathIsViolation() bool { return p.DeathIsViol }
 func (p *PropDef) CaseTimeout() time.Duration {
 	if p.Timeout > 0 {
 		return p.Timeout
